@@ -2,15 +2,18 @@
 From Dns Require Import Model.Sig0.
 Open Scope N_scope.
 
-Fixpoint split_aux (sep : ascii) (s : string) (cur : string) : list string :=
+(* linear-time split (the tables hold thousands of hex digits) *)
+Fixpoint split_rev (sep : ascii) (s : string) (cur : list ascii) (acc : list string) : list string :=
   match s with
-  | EmptyString => [cur]
+  | EmptyString => rev (string_of_list_ascii (rev cur) :: acc)
   | String c r =>
-    if Ascii.eqb c sep then cur :: split_aux sep r EmptyString
-    else split_aux sep r (cur +++ String c EmptyString)
+    if Ascii.eqb c sep then split_rev sep r [] (string_of_list_ascii (rev cur) :: acc)
+    else split_rev sep r (c :: cur) acc
   end.
-Definition split_str (sep : ascii) (s : string) : list string :=
-  match s with EmptyString => [] | _ => split_aux sep s EmptyString end.
+Definition split_lin (sep : ascii) (s : string) : list string :=
+  match s with EmptyString => [] | _ => split_rev sep s [] [] end.
+
+Definition split_str := split_lin.
 
 Definition labels_of (w : bytes) : list label :=
   match unpack_name w 0 with Ok (ls, _) => ls | _ => [] end.
@@ -49,16 +52,6 @@ Definition sig_args (args : list string) (i : nat) : sigrr :=
    the octets: recipe = seg,seg,... with seg = hex (literal) or hex*count (the
    chunk repeated count times); both sides expand it.  Long octet strings are
    rendered as length.sum.sum-of-prefix-sums (Fletcher without modulus: below 2^41). *)
-Fixpoint split_rev (sep : ascii) (s : string) (cur : list ascii) (acc : list string) : list string :=
-  match s with
-  | EmptyString => rev (string_of_list_ascii (rev cur) :: acc)
-  | String c r =>
-    if Ascii.eqb c sep then split_rev sep r [] (string_of_list_ascii (rev cur) :: acc)
-    else split_rev sep r (c :: cur) acc
-  end.
-Definition split_lin (sep : ascii) (s : string) : list string :=
-  match s with EmptyString => [] | _ => split_rev sep s [] [] end.
-
 Fixpoint rep_bytes (n : nat) (c acc : bytes) : bytes :=
   match n with O => acc | S k => rep_bytes k c (c ++ acc) end.
 Definition expand_seg (s : string) : bytes :=
